@@ -21,13 +21,14 @@
 //!
 //! For every pair the three builders x max_diff_block_size values are run; each produced patch is taken apart by
 //! an independent reader (own header split, own inflate - not the library's parser) and applied with
-//! apply_patch_memory, ZbsdiffPatcher (several buffer sizes) and ZbsDiff::parse(..).apply(..).  Configurations
+//! apply_patch_memory, ZbsdiffPatcher (several buffer sizes x initial positions of the old-file reader: start, 1,
+//! middle, EOF - "s1024@mid" etc.) and ZbsDiff::parse(..).apply(..).  Configurations
 //! that behaved identically (same patch blocks, same outputs) are logged as one record.
 //!
 //! The driver only executes and records; verdicts are computed by TLC (spec/trace/T_Bsdiff.tla).
 use cascette_formats::zbsdiff::{ZbsDiff, ZbsdiffBuilder, ZbsdiffHeader, ZbsdiffPatcher, apply_patch_memory};
 use serde_json::{Value, json};
-use std::io::Cursor;
+use std::io::{Cursor, Seek, SeekFrom};
 use verif_harness::*;
 
 // ---------------------------------------------------------------------------
@@ -300,16 +301,27 @@ fn build(builder: &str, bs: usize, old: &[u8], new: &[u8]) -> Outcome {
     }))
 }
 
+/// Where the old-file reader stands when it is handed to the streaming patcher: a caller may have hashed the file
+/// (reader at EOF), peeked at a header, or re-used a handle.  The patcher applies the patch to the old FILE, so the
+/// expected output does not depend on it.  The first buffer size gets every position, the others start and EOF.
+fn reader_positions(len: usize, first: bool) -> Vec<(&'static str, usize)> {
+    if first { vec![("", 0), ("@1", 1.min(len)), ("@mid", len / 2), ("@end", len)] } else { vec![("", 0), ("@end", len)] }
+}
+
 fn apply_all(old: &[u8], patch: &[u8], bufs: &[usize]) -> Vec<(String, Outcome)> {
     let mut v = vec![("mem".to_string(), outcome(guarded(|| apply_patch_memory(old, patch))))];
-    for &b in bufs {
-        v.push((
-            format!("s{b}"),
-            outcome(guarded(|| {
-                let h = ZbsdiffHeader::parse_from_patch(patch)?;
-                ZbsdiffPatcher::new(Cursor::new(old), h.output_size as usize).with_buffer_size(b).apply_patch_from_data(patch)
-            })),
-        ));
+    for (i, &b) in bufs.iter().enumerate() {
+        for (tag, pos) in reader_positions(old.len(), i == 0) {
+            v.push((
+                format!("s{b}{tag}"),
+                outcome(guarded(|| {
+                    let h = ZbsdiffHeader::parse_from_patch(patch)?;
+                    let mut rd = Cursor::new(old);
+                    rd.seek(SeekFrom::Start(pos as u64)).expect("seek in a cursor");
+                    ZbsdiffPatcher::new(rd, h.output_size as usize).with_buffer_size(b).apply_patch_from_data(patch)
+                })),
+            ));
+        }
     }
     v.push(("obj".to_string(), outcome(guarded(|| ZbsDiff::parse(patch).and_then(|p| p.apply(old))))));
     v
